@@ -178,6 +178,39 @@ def variants_of(relfile, source):
                         c.args[0] = ast.Name(id='_arg0', ctx=ast.Load())
                         blk.insert(k, asg)
                         yield 'argtemp', f'{relfile}:{st.lineno} {fn.name}: first argument through a temporary', ast.unparse(ast.fix_missing_locations(t))
+    # comp2loop: ``x = [E for v in IT if C]`` -> ``x = []; for v in IT: if C: x.append(E)`` (v used nowhere else in the function)
+    for fn in functions(tree):
+        if any(isinstance(x, (ast.Yield, ast.YieldFrom)) for x in own_nodes(fn)):
+            pass
+        names_all = [x.id for x in ast.walk(fn) if isinstance(x, ast.Name)]
+        for holder in [fn] + [x for x in own_nodes(fn) if isinstance(x, (ast.If, ast.For, ast.While, ast.With, ast.Try))]:
+            for field in ('body', 'orelse'):
+                block = getattr(holder, field, None)
+                if not isinstance(block, list):
+                    continue
+                for k, st in enumerate(block):
+                    if not (isinstance(st, ast.Assign) and len(st.targets) == 1 and isinstance(st.targets[0], ast.Name) and isinstance(st.value, ast.ListComp)
+                            and len(st.value.generators) == 1 and not st.value.generators[0].is_async):
+                        continue
+                    g = st.value.generators[0]
+                    x = st.targets[0].id
+                    tv = [n.id for n in ast.walk(g.target) if isinstance(n, ast.Name)]
+                    inside = [n.id for n in ast.walk(st.value) if isinstance(n, ast.Name)]
+                    if x in inside or any(names_all.count(v) != inside.count(v) for v in tv):
+                        continue
+                    if any(isinstance(n, (ast.ListComp, ast.SetComp, ast.DictComp, ast.GeneratorExp, ast.Lambda)) for n in ast.walk(st.value) if n is not st.value):
+                        continue
+                    t, nodes = redo(None)
+                    h = nodes[index[id(holder)]]
+                    blk = getattr(h, field)
+                    m = blk[k]
+                    g2 = m.value.generators[0]
+                    inner = [ast.Expr(value=ast.Call(func=ast.Attribute(value=ast.Name(id=x, ctx=ast.Load()), attr='append', ctx=ast.Load()), args=[m.value.elt], keywords=[]))]
+                    for c in reversed(g2.ifs):
+                        inner = [ast.If(test=c, body=inner, orelse=[])]
+                    loop = ast.For(target=g2.target, iter=g2.iter, body=inner, orelse=[])
+                    blk[k:k + 1] = [ast.Assign(targets=[ast.Name(id=x, ctx=ast.Store())], value=ast.List(elts=[], ctx=ast.Load())), loop]
+                    yield 'comp2loop', f'{relfile}:{st.lineno} {fn.name}: list comprehension {x} as a loop', ast.unparse(ast.fix_missing_locations(t))
     # temp / guard: per function body blocks
     for fn in functions(tree):
         is_gen = any(isinstance(x, (ast.Yield, ast.YieldFrom)) for x in own_nodes(fn))
